@@ -390,6 +390,14 @@ void QXmppIncomingClient::handleStanza(const QDomElement &nodeRecv)
             }
         }
     } else if (ns == ns_client) {
+        // RFC 6120 4.9.3.12: no resource binding and no stanzas before the stream is authenticated
+        if (d->jid.isEmpty()) {
+            warning(u"Received a stanza before authentication from %1"_s.arg(d->origin()));
+            sendData(QByteArrayLiteral("<stream:error><not-authorized xmlns='urn:ietf:params:xml:ns:xmpp-streams'/></stream:error>"));
+            disconnectFromHost();
+            return;
+        }
+
         if (nodeRecv.tagName() == u"iq") {
             const QString type = nodeRecv.attribute(u"type"_s);
             const auto id = nodeRecv.attribute(u"id"_s);
